@@ -4,12 +4,14 @@ from .util import call, spell, agn_name, LETTERS
 
 ID = 'C10'
 LEAN_MODULE = 'KernProofs.C10'
-EXTRA_MODULES = ['KernProofs.C10Doc']
+EXTRA_MODULES = ['KernProofs.C10Doc', 'KernProofs.C10Text']
 THEOREMS = ['KM.C10.bottom_table', 'KM.C10.bottom_G2', 'KM.C10.letterToIndex_table', 'KM.C10.gkernLetters_table',
             'KM.C10.gkernOfPosition_steps', 'KM.C10.C10_position', 'KM.C10.C10_G2_identity', 'KM.C10.C10_translation',
             'KM.C10.C10_bottom_is_e', 'KM.C10.C10_all_clefs', 'KM.C10.C10_marks_ignored',
             'KM.C10D.lookup_sigsUpdate', 'KM.C10D.cellStep_body_sigs', 'KM.C10D.nodeAt_addNode', 'KM.C10D.SI_add', 'KM.C10D.runRows_SI',
-            'KM.C10D.C10_sigs_recurrence', 'KM.C10D.C10_clef_passes_down', "KM.C10D.C10_clef_passes_down'", 'KM.C10D.C10_clef_sets', 'KM.C10D.C10_clef_in_force']
+            'KM.C10D.C10_sigs_recurrence', 'KM.C10D.C10_clef_passes_down', "KM.C10D.C10_clef_passes_down'", 'KM.C10D.C10_clef_sets', 'KM.C10D.C10_clef_in_force',
+            'KM.C10T.tinv_step', 'KM.C10T.parent_earlier', 'KM.C10T.clef_is_nearest', 'KM.C10T.clefOf_spec', 'KM.C10T.cellBody_any', 'KM.C10T.rowOfStage_specA',
+            'KM.C10T.C10_export_of_text', 'KM.C10T.bodyRows_range_of_text']
 FINGERPRINTS = ['gkern.PositionInStaff', 'gkern.PitchPositionReferenceSystem.compute_position', 'gkern.ClefFactory.create_clef',
                 'gkern.gkern_to_g_clef_pitch', 'gkern.pitch_to_gkern_string', 'gkern.GKernExporter', 'gkern.Staff',
                 'pitch_models.AgnosticPitch']
